@@ -240,3 +240,70 @@ func ruleR14(c *Ctx) {
 	}
 	c.floor("R14", "free-text source fields with at least one emit flow", 6, have)
 }
+
+// R14b: free text is escaped as a whole: it is not cut at computed byte offsets first (a multi-byte
+// character could be split, producing invalid UTF-8 in the generated file).
+// R14c: the generator never reads StringNode.Quoted, the literal's Soy spelling, which is a
+// placeholder for nodes built from global values.
+func ruleR14b(c *Ctx) {
+	c.buildSSA()
+	pkg := c.SSA["soyjs"]
+	if pkg == nil {
+		return
+	}
+	nfun, nslice, nquoted := 0, 0, 0
+	for _, f := range allPkgFunctions(c, pkg) {
+		nfun++
+		fk := strings.ReplaceAll(f.String(), modPath+"/", "")
+		t := taintFunction(f, taintSpec{
+			source: func(v ssa.Value) bool {
+				if sourceField(v) != "" {
+					return true
+				}
+				// parameters that carry free text (byte slices / strings handed to the raw-text writer)
+				if p, ok := v.(*ssa.Parameter); ok {
+					if sl, ok := p.Type().Underlying().(*types.Slice); ok {
+						if b, ok := sl.Elem().(*types.Basic); ok && b.Kind() == types.Byte {
+							return true
+						}
+					}
+				}
+				return false
+			},
+		})
+		for _, b := range f.Blocks {
+			for _, in := range b.Instrs {
+				switch in := in.(type) {
+				case *ssa.Slice:
+					if !t[in.X] {
+						continue
+					}
+					if in.Low == nil && in.High == nil {
+						continue // x[:] keeps the whole text
+					}
+					nslice++
+					c.bad("R14b", fmt.Sprintf("%s slices free text#%d", fk, nslice), in.Pos(), "free text of the template is cut at a byte offset before it is escaped and written: a multi-byte character can be split, so the generated file is not valid UTF-8 and the text is not preserved")
+				case *ssa.FieldAddr:
+					if fieldKeyOf(in.X.Type(), in.Field) == "ast.StringNode.Quoted" {
+						read := false
+						for _, r := range *in.Referrers() {
+							if u, ok := r.(*ssa.UnOp); ok && u.Op == token.MUL {
+								read = true
+							}
+						}
+						if read {
+							nquoted++
+							c.bad("R14c", fmt.Sprintf("%s reads StringNode.Quoted#%d", fk, nquoted), in.Pos(), "the generator reads the literal's Soy spelling (Quoted); for string nodes built from global values it is a placeholder shared by all of them, so anything keyed or emitted by it confuses different strings")
+						}
+					}
+				}
+			}
+		}
+	}
+	if nslice == 0 {
+		c.ok("R14b", "soyjs#free-text-not-resliced", token.NoPos, fmt.Sprintf("no computed slicing of free text in the %d functions of soyjs", nfun))
+	}
+	if nquoted == 0 {
+		c.ok("R14c", "soyjs#quoted-not-read", token.NoPos, "StringNode.Quoted is never read by the generator")
+	}
+}
